@@ -108,11 +108,11 @@ def read_runs(path):
             if not line:
                 continue
             e = json.loads(line)
-            if e.get("op") == "reset":
+            if e.get("op") == "run_start":
                 runs.append((e, []))
             else:
                 if not runs:
-                    raise ToolError("trace %s does not start with a reset header" % path)
+                    raise ToolError("trace %s does not start with a run_start header" % path)
                 runs[-1][1].append(e)
     return runs
 
